@@ -69,7 +69,7 @@ EstimatorSq(name, A, xa, xb, e) ==       \* xa = x_i, xb = x_{i+1}, h = 2^-e
                [num |-> DNorm2Sq(DSub(DSub(Sc(s, xb), Ax(xb)), DAdd(Sc(s, xa), Ax(xa)))),
                 den |-> DNorm2Sq(DAdd(Sc(s, xa), Ax(xa)))]
 
-OdeDims == IF Level = 1 THEN {<<2, 2>>, <<2, 2, 2>>} ELSE {<<2>>, <<2, 2>>, <<2, 2, 2>>, <<3, 2>>, <<2, 3, 2>>}
+OdeDims == IF Level = 1 THEN {<<2, 2>>, <<2, 2, 2>>, <<3>>, <<2, 1, 2>>} ELSE {<<2>>, <<2, 2>>, <<2, 2, 2>>, <<3, 2>>, <<2, 3, 2>>, <<1, 2, 2>>, <<2, 2, 1>>}
 StepLists == {<<7>>, <<6, 8>>, <<7, 6, 8>>, <<7, 6, 7>>, <<6, 8, 8, 6>>}
 OdeConfigs ==
     UNION {
@@ -93,7 +93,8 @@ EstCase(c) ==
                                         [rd |-> c.dims, cd |-> [j \in 1..Len(c.dims) |-> 1], rk |-> <<1, 2, 1>>])]
         Ad == FullOf(A)
         xd == [k \in 1..3 |-> FullOf(xs[k])]
-    IN  [A |-> A, xs |-> xs, sq |-> [i \in 1..2 |-> EstimatorSq(c.scheme, Ad, xd[i], xd[i + 1], c.e)]]
+    IN  [A |-> A, xs |-> xs, \* the two steps use different step sizes h = 2^-e and h/2 (the estimator must pair step i with step size i)
+         sq |-> [i \in 1..2 |-> EstimatorSq(c.scheme, Ad, xd[i], xd[i + 1], c.e + i - 1)]]
 
 OdeIx(c) == ISum(c.dims) * 3 + c.seed * 5 + Len(c.scheme) + (IF c.cplx THEN 1 ELSE 0)
             + (IF "steps" \in DOMAIN c THEN Len(c.steps) * 7 + c.m + ISum(c.rx) ELSE c.e)
